@@ -114,8 +114,8 @@ func C16(c *Ctx) {
 		}
 	}
 	R3LockPair(c, func(fn, lock string) bool { return strings.Contains(fn, "service.") }, 3)
-	R1Nil(c, svc, "-service", 1)
-	R1Bounds(c, svc, "-service", 1)
+	R1Nil(c, svc, "-service", 0)
+	R1Bounds(c, svc, "-service", 0)
 }
 
 func C12(c *Ctx) {
@@ -251,8 +251,8 @@ func C06(c *Ctx) {
 			scope = append(scope, fn.AnonFuncs...)
 		}
 	}
-	R1Bounds(c, scope, "-preauth", 3)
-	R1Nil(c, scope, "-preauth", 1)
+	R1Bounds(c, scope, "-preauth", 0)
+	R1Nil(c, scope, "-preauth", 0)
 	R1Explicit(c, scope, "-preauth")
 }
 
